@@ -80,7 +80,8 @@ fn gen_program(ch: &mut Choices) -> String {
 pub fn observe(src: &str) -> String {
     let mut out = String::new();
     let r = std::panic::catch_unwind(|| {
-        let o = sl::run_src("det.star", src, &sl::RunCfg::default(), &[]);
+        let cfg = sl::RunCfg { max_ticks: 300_000, max_heap: 256 << 20, ..Default::default() };
+        let o = sl::run_src("det.star", src, &cfg, &[("hostile.star", crate::props::c07::hostile_lib())]);
         let mut s = String::new();
         for t in &o.tx {
             s.push_str(t);
@@ -215,7 +216,7 @@ impl Prop for C14 {
         (100, 2500)
     }
     fn rule(&self) -> String {
-        "Case = batch of 10 programs (typed generator, profile full, plus determinism probes: iteration order of dicts/sets/struct fields/dir(), hash(), json.encode, repr of functions/types/records/enums, print, and in 2/3 of programs a failing statement chosen from typos with did-you-mean suggestions, missing attributes, type-annotation failures, nested call stacks, bad load, json errors). Each batch is executed by 4 fresh processes: {ASLR on, worker thread} / {ASLR off via setarch -R, main thread, allocation noise} / {ASLR on, n-th spawned thread, larger noise, dummy Starlark heaps, padded environment} / {ASLR off, other thread, largest noise}; std's per-process hash seeds differ by themselves; every process runs each program twice. Oracle: byte equality of the full observation (emit/print transcript, result, complete error Display with diagnostics and call stack, final globals, linter output, static type-checker errors and approximations). evaluations = program executions compared. Non-trivial = the program's observation contains an error, a probe output, lint or typecheck output; distinct = distinct program text.".into()
+        "Case = batch of 10 programs plus 24 ill-typed single calls (every builtin/method x hostile arguments incl. several unknown/duplicated keywords, generator shared with C07) (typed generator, profile full, plus determinism probes: iteration order of dicts/sets/struct fields/dir(), hash(), json.encode, repr of functions/types/records/enums, print, and in 2/3 of programs a failing statement chosen from typos with did-you-mean suggestions, missing attributes, type-annotation failures, nested call stacks, bad load, json errors). Each batch is executed by 4 fresh processes: {ASLR on, worker thread} / {ASLR off via setarch -R, main thread, allocation noise} / {ASLR on, n-th spawned thread, larger noise, dummy Starlark heaps, padded environment} / {ASLR off, other thread, largest noise}; std's per-process hash seeds differ by themselves; every process runs each program twice. Oracle: byte equality of the full observation (emit/print transcript, result, complete error Display with diagnostics and call stack, final globals, linter output, static type-checker errors and approximations). evaluations = program executions compared. Non-trivial = the program's observation contains an error, a probe output, lint or typecheck output; distinct = distinct program text.".into()
     }
     fn assumptions(&self) -> Vec<String> {
         vec!["addresses printed by debug()/pprint widths and profile outputs are not in the program alphabet".into(), "a child process that dies is reported as inconclusive for that batch unless all variants die alike".into()]
@@ -224,7 +225,17 @@ impl Prop for C14 {
         8
     }
     fn run(&self, ctx: &mut Ctx, ch: &mut Choices) -> CaseResult {
-        let progs: Vec<String> = (0..10).map(|_| gen_program(ch)).collect();
+        let mut progs: Vec<String> = (0..10).map(|_| gen_program(ch)).collect();
+        // the error zoo: ill-typed calls of every builtin/method with hostile arguments (generator of C07); what matters
+        // here is the complete error text they produce (argument-binding errors list names, suggestions, ...)
+        for _ in 0..24 {
+            let sn = crate::props::c07::gen_snippet(ch);
+            // open finding of C07 (debug() on a self-containing value aborts): not this property's business
+            if sn.contains("debug(") && crate::props::c07::POOL.iter().any(|v| crate::props::c07::is_cyclic_pool(v) && sn.contains(v)) {
+                continue;
+            }
+            progs.push(format!("{}{sn}\n", crate::props::c07::PRELUDE));
+        }
         let dir = format!("{WORK_DIR}/C14");
         let _ = std::fs::create_dir_all(&dir);
         let path = format!("{dir}/batch-{}-{}.json", std::process::id(), ctx.worker);
